@@ -309,11 +309,11 @@ def _worker_selftest(ctx, n):
 
 def run(ctx):
     quick = ctx.tier == "quick"
-    d = 4 if quick else 6
+    d = 4 if quick else 7
     jobs = [(K, d, [f]) for K in (1, 2, 3) for f in range(5)]
     ctx.parallel(_worker_exh, jobs)
     ctx.exhaustive[f"all 5^{d} fate assignments to the first {d} frames, K=1..3, fixed 2+2 workload"] = True
     ctx.extra["exhaustive_depth"] = d
     ctx.parallel(_worker_selftest, [60] * 4 if quick else [1500] * 8)
-    ctx.parallel(_worker_random, [250] * 16 if quick else [3800] * 16)
-    ctx.parallel(_worker_targeted, [80] * 16 if quick else [1200] * 16)
+    ctx.parallel(_worker_random, [250] * 16 if quick else [12000] * 16)
+    ctx.parallel(_worker_targeted, [80] * 16 if quick else [5000] * 16)
